@@ -1,6 +1,7 @@
 package xpath
 
 import (
+	"math"
 	"strconv"
 )
 
@@ -74,7 +75,8 @@ func cmpNumericString(t iterator, op string, m, n interface{}) bool {
 	b := n.(string)
 	num, err := strconv.ParseFloat(b, 64)
 	if err != nil {
-		panic(err)
+		// A string that is not a number compares as NaN.
+		num = math.NaN()
 	}
 	return cmpNumberNumberF(op, a, num)
 }
@@ -90,7 +92,8 @@ func cmpNumericNodeSet(t iterator, op string, m, n interface{}) bool {
 		}
 		num, err := strconv.ParseFloat(node.Value(), 64)
 		if err != nil {
-			panic(err)
+			// A string-value that is not a number compares as NaN.
+			num = math.NaN()
 		}
 		if cmpNumberNumberF(op, a, num) {
 			return true
@@ -109,7 +112,8 @@ func cmpNodeSetNumeric(t iterator, op string, m, n interface{}) bool {
 		}
 		num, err := strconv.ParseFloat(node.Value(), 64)
 		if err != nil {
-			panic(err)
+			// A string-value that is not a number compares as NaN.
+			num = math.NaN()
 		}
 		if cmpNumberNumberF(op, num, b) {
 			return true
@@ -165,7 +169,8 @@ func cmpStringNumeric(t iterator, op string, m, n interface{}) bool {
 	b := n.(float64)
 	num, err := strconv.ParseFloat(a, 64)
 	if err != nil {
-		panic(err)
+		// A string that is not a number compares as NaN.
+		num = math.NaN()
 	}
 	return cmpNumberNumberF(op, b, num)
 }
